@@ -45,7 +45,7 @@ Proof. intros t os s Hwf Hrun. exact (reserved_separation t os s (tree_wfb_sound
 Print Assumptions C01_reserved_separation.
 
 (* ---- "as told to the runtime": the runtime keeps the last cpuset it was told for every running
-   container, granted or not (TA_Pins.v).  As long as no UpdateContainer fails, these pins are
+   container, granted or not (TA_Pins.v).  As long as no re-allocation fails, these pins are
    exactly what the granted containers are told, so no exclusive CPU occurs in another pin ... *)
 From NV Require Import TA_Pins TA_PinsProofs.
 Theorem C01_exclusive_not_in_runtime_pins_partial : forall t os s pins, tree_wfb t = true ->
@@ -54,9 +54,10 @@ Theorem C01_exclusive_not_in_runtime_pins_partial : forall t os s pins, tree_wfb
 Proof. intros t os s pins Hwf. exact (pins_disjoint_from_exclusive t os s pins (tree_wfb_sound t Hwf)). Qed.
 Print Assumptions C01_exclusive_not_in_runtime_pins_partial.
 
-(* ... and with a failed update the statement is false of the faithful model (known finding K3): the
-   container loses its grant, keeps running on its old cpuset, and a later exclusive grant overlaps it.
-   The same three requests fail on the implementation. *)
+(* ... and with a failed re-allocation (Synchronize / configuration update asking for more than fits) the
+   statement is false of the faithful model (known finding K3): the container loses its grant, keeps
+   running on its old cpuset, and a later exclusive grant overlaps it.  Observed on the implementation
+   after Synchronize; the UpdateContainer path of the same defect was repaired. *)
 Theorem C01_exclusive_not_in_runtime_pins_refuted :
   tree_wfb k3_tree = true /\
   match prun k3_tree (init k3_tree, ∅) k3_ops with
